@@ -12,7 +12,7 @@ OBS = ['sig', 'view']
 BASE = 'MC_ObjTree'
 
 I1 = interface.DBusInterface('org.verif.I1', interface.Method('Ping1', returns='s'),
-                             interface.Property('p1', 'i'), noRegister=True)
+                             interface.Property('p1', 'i'), interface.Property('p2', 'i'), noRegister=True)
 I2 = interface.DBusInterface('org.verif.I2', interface.Method('Ping2', returns='s'), interface.Property('q', 's'), interface.Property('w', 'u', readable=False, writeable=True),
                              noRegister=True)
 
@@ -33,11 +33,16 @@ class K2(K1):
     dbusInterfaces = [I2]
     q = objects.DBusProperty('q')
     w = objects.DBusProperty('w')
+    p2 = objects.DBusProperty('p2')          # one more property of the BASE class's interface
 
     def __init__(self, path):
         K1.__init__(self, path)
         self.q = 'qq'
         self.w = 3
+        self.p2 = 8
+
+    def __len__(self):                       # a container-like application object that is currently empty
+        return 0
 
     def dbus_Ping2(self):
         return 'pong2'
@@ -46,7 +51,7 @@ class K2(K1):
 CLS = {'K1': K1, 'K2': K2}
 PROPS = 'org.freedesktop.DBus.Properties'
 EXPECT = {'K1': {'org.verif.I1': {'p1': 7}, PROPS: {}},
-          'K2': {'org.verif.I1': {'p1': 7}, 'org.verif.I2': {'q': 'qq'}, PROPS: {}}}
+          'K2': {'org.verif.I1': {'p1': 7, 'p2': 8}, 'org.verif.I2': {'q': 'qq'}, PROPS: {}}}
 
 
 def pstr(p):
